@@ -20,14 +20,17 @@ Inductive guard :=
   | GA (owner : string)                 (* abstract: the body only raises *)
   | GX (owner : string)                 (* inherited from scikit-learn *)
   | GR (owner : string)                 (* some path completes without reaching the guard *)
-  | GU (owner : string) (what : string).(* fitted state `what` touched before the guard *)
+  | GU (owner : string) (what : string). (* fitted state `what` touched before the guard *)
 
 Record class_row := Row {
   r_key : string;                        (* class name (name@module when ambiguous) *)
   r_module : string;
   r_bases : list string;                 (* "~X" = external base X *)
   r_init : option (list (string * store)); (* None: no own __init__; "*" / "**" = *args / **kwargs *)
-  r_methods : list (string * guard) }.
+  r_methods : list (string * guard);
+  (* (entry, owner, p): public method `entry` reaches code of class `owner` assigning self.p,
+     p a constructor parameter of this class *)
+  r_mutates : list (string * string * string) }.
 
 Definition str_eqb := String.eqb.
 
@@ -104,3 +107,9 @@ Definition guarded_ok_or_known (known : gknown) (r : class_row) : bool :=
   forallb (fun x => method_ok known (r_key r) (fst x) (snd x)) (r_methods r).
 
 Definition guarded_ok := guarded_ok_or_known [].
+
+(* fit / apply-type methods never assign to a constructor parameter; exception = (owner, param) *)
+Definition params_stable_ok_or_known (known : list (string * string)) (r : class_row) : bool :=
+  forallb (fun x => match x with (_, o, q) => mem2 known o q end) (r_mutates r).
+
+Definition params_stable_ok := params_stable_ok_or_known [].
